@@ -214,6 +214,7 @@ func checkReseed(w *World, r *Report, d *detInfo, k *kernels, curFFCField int, r
 		}
 	}
 	checkUpdateBeforeDifferencing(w, r, d, k, rule)
+	checkDetectorSeesEveryFrame(w, r, rule) // the FFC hand-shake and the re-seed need the detector to see the FFC frames
 }
 
 // forwardReaches: b is executed after a without taking a back edge (same loop iteration, or later straight-line code).
